@@ -51,7 +51,9 @@ def thorough(ctx, env, mod, pid):
     debug assertions off), the module's own extra checks, and the seeded-mutant sensitivity run."""
     if hasattr(mod, "run_thorough"):
         mod.run_thorough(ctx, env)
-    extra = ["default-nochecks"] if pid == "C17" else ["nofeat", "default-nochecks"]
+    # C17 is itself a comparison of the two feature configurations (default vs nofeat, both with the checks the
+    # default profile has): re-running it with one side swapped for another profile compares unlike with unlike
+    extra = [] if pid == "C17" else ["nofeat", "default-nochecks"]
     for cfg in extra:
         n0 = len(ctx.obls)
         env.primary = cfg
